@@ -61,7 +61,7 @@ Proof.
 Qed.
 
 (* The property as stated, from the query TEXT: for a query printed from a specification tree (Spec/Printer, the trees of C05:
-   ASCII tokens that lex to themselves, parentheses at least where the precedence table requires them) whose parse is a tree of
+   tokens of any bytes that lex to themselves when a blank follows, parentheses at least where the precedence table requires them) whose parse is a tree of
    the fragment, ToPostgres - Parse, then Render - returns a text, PostgreSQL reads one expression from it, and that expression is
    true on exactly the rows on which the query is true. (SqlQueryText.premises_are_satisfiable: a concrete query meets every premise.) *)
 Theorem C03_query_text_to_rows :
